@@ -6,9 +6,10 @@
    loadDocumentFromHTTP / loadDocumentFromIPFSGW / loadDocumentFromIPFSNode and
    memoryCacheEngine.Get/Set statement by statement.
 
-   External code: github.com/pquerna/cachecontrol is NOT modelled.  Its answer
+   External code: github.com/pquerna/cachecontrol is NOT modelled.  Its answers
    (`cachecontrol.CachableResponse(req, res, Options{})` on a 200 response with a
-   given set of cache headers) is a field of the configuration, `cc`, an arbitrary
+   given set of cache headers, and `cacheobject.ParseResponseCacheControl` on its
+   Cache-Control header) are a field of the configuration, `cc`, an arbitrary
    function in every theorem and a recorded table in the per-run case files.
 
    Not modelled: the Link-header branch of loadDocumentFromHTTP (context link,
@@ -44,11 +45,13 @@ Inductive policy :=
 | PMustRevalidate (n : Z)  (* Cache-Control: must-revalidate, max-age=n *)
 | PNoCacheMaxAge (n : Z).  (* Cache-Control: no-cache, max-age=n *)
 
-(* The answer of cachecontrol.CachableResponse for a header set, as the loader uses it:
-   cc_store    = (err == nil && len(reasons) == 0)      — the loader's shouldCache
-   cc_lifetime = Some n when the returned expiry is (time of the call) + n seconds,
-                 None   when the returned expiry is the ZERO time.Time. *)
-Definition ccdec := (bool * option Z)%type.
+(* The answers of the library for a header set, as the loader uses them:
+   cc_store    = (err == nil && len(reasons) == 0) of cachecontrol.CachableResponse
+   cc_lifetime = Some n when the expiry returned by CachableResponse is (time of the call) + n
+                 seconds, None when it is the ZERO time.Time
+   cc_nocache  = cacheobject.ParseResponseCacheControl succeeds and reports NoCachePresent
+                 (requiresRevalidation in document_loader.go). *)
+Definition ccdec := (bool * option Z * bool)%type.
 
 (* time.Time as used for expiry: the zero value (year 1) or an instant in seconds *)
 Inductive etime := TZero | TAt (z : Z).
@@ -85,11 +88,16 @@ Record config := {
   ipfs_client : bool;           (* ipfsCli != nil *)
   gateway : string;             (* ipfsGW, "" = not set *)
   url_ok : url -> bool;         (* recorded primitive: http.NewRequest("GET", u, NoBody) succeeds *)
-  cc : policy -> ccdec          (* recorded primitive: cachecontrol.CachableResponse on a 200 response *)
+  cc : policy -> ccdec          (* recorded primitives: cachecontrol.CachableResponse on a 200 response,
+                                   cacheobject.ParseResponseCacheControl *)
 }.
 
-Definition cc_store (cfg : config) (p : policy) : bool := fst (cc cfg p).
-Definition cc_lifetime (cfg : config) (p : policy) : option Z := snd (cc cfg p).
+Definition cc_store (cfg : config) (p : policy) : bool := fst (fst (cc cfg p)).
+Definition cc_lifetime (cfg : config) (p : policy) : option Z := snd (fst (cc cfg p)).
+Definition cc_nocache (cfg : config) (p : policy) : bool := snd (cc cfg p).
+
+(* the loader's shouldCache: err == nil && len(reasons) == 0 && !requiresRevalidation(res.Header) *)
+Definition storable (cfg : config) (p : policy) : bool := cc_store cfg p && negb (cc_nocache cfg p).
 
 Definition embedded (cfg : config) : list (url * doc) :=
   match cache_mode_of cfg with CacheMemory emb => emb | _ => [] end.
@@ -162,8 +170,8 @@ Definition fetch (cfg : config) (st : state) (u : url) : state * res doc :=
   | RResp code b p =>
       (* res.StatusCode != http.StatusOK *)
       if negb (code =? 200) then (st1, Err "status") else
-      (* cachecontrol.CachableResponse: shouldCache, expireTime *)
-      let should_cache := cc_store cfg p in
+      (* cachecontrol.CachableResponse, requiresRevalidation: shouldCache, expireTime *)
+      let should_cache := storable cfg p in
       let expire := expiry_of (cc_lifetime cfg p) (now st) in
       (* ld.DocumentFromReader(res.Body) *)
       match b with
